@@ -32,24 +32,27 @@ def queries(ctx):
             "stubs": ["parsec_termdet_open_module (installs the real local module)", "parsec_pins_*", "parsec_my_execution_stream", "scheduler module (never called)", "parsec_class_initialize (clsstub.c)"]}
     qs = []
     both = ("quick", "thorough")
-    for mode, nm in ((0, "compose_startup"), (1, "completion_step")):
-        qs.append(Q(nm, ["hs.c", "clsstub.c", "repo:parsec/class/parsec_list.c"], defs=["MODE=%d" % mode], unwind=22, gen=gen_tpclass,
+    for nn, tiers in ((2, both), (3, both), (16, both), (17, both), (20, ("thorough",))):
+        qs.append(Q("chain_n%d" % nn, ["hs.c", "clsstub.c", "repo:parsec/class/parsec_list.c"], defs=["N=%d" % nn], unwind=max(nn + 2, 8), gen=gen_tpclass,
+                    unwindset=["parsec_termdet_local_termination_detected:1", "parsec_composed_taskpool_cb:1"],
                     checks=["bounds", "pointer"], object_bits=12, units=[U, "parsec/mca/termdet/local/termdet_local_module.c", "parsec/parsec.c"],
-                    info={"symbolic": ["number of members n in 2..20"] + (["number k of members already completed (any valid state)"] if mode else []),
+                    info={"symbolic": ["number k of members already completed (any valid state of the compound)"], "enumerated": ["number of members N"],
                           "functions": ["parsec_compose", "parsec_compound_taskpool_startup", "parsec_composed_taskpool_cb", "parsec_termdet_local_taskpool_addto_runtime_actions/_set_runtime_actions/_termination_detected"],
-                          "stubs": ["parsec_context_add_taskpool (recording stub; the real one is used by the compose_n* queries)", "parsec_class_initialize (clsstub.c)", "object release (counting stub)"],
-                          "bounds": {"n": "2..20"}}, tiers=both, timeout=600))
+                          "stubs": ["parsec_context_add_taskpool (recording stub; the real one is used by the compose_n* queries)", "parsec_class_initialize (clsstub.c)", "object release (counting stub)", "asprintf"],
+                          "bounds": {"N": nn}}, tiers=tiers, timeout=600))
     for nmax, tiers in ((2, both), (3, both), (17, both), (16, ("thorough",)), (20, ("thorough",))):
-        qs.append(Q("compose_n%d" % nmax, ["h.c", "clsstub.c", "repo:parsec/class/parsec_list.c"], defs=["N=%d" % nmax, "SYMEMPTY=%d" % (1 if nmax == 2 else 0)], unwind=max(nmax + 2, 8), gen=gen_tpclass,
+        qs.append(Q("compose_n%d" % nmax, ["h.c", "clsstub.c", "repo:parsec/class/parsec_list.c"], defs=["N=%d" % nmax, "SYMEMPTY=%d" % (1 if nmax == 2 else 0)], unwind=max(nmax + 2, 8),
+                    unwindset=["%s:%d" % (f, 5 if nmax == 2 else 3) for f in ("parsec_termdet_local_termination_detected", "parsec_composed_taskpool_cb", "parsec_context_add_taskpool",
+                               "parsec_taskpool_termination_detected", "parsec_termdet_local_taskpool_ready", "parsec_compound_taskpool_startup")], gen=gen_tpclass,
                     checks=["bounds", "pointer"], object_bits=12, units=[U, "parsec/scheduling.c", "parsec/mca/termdet/local/termdet_local_module.c", "parsec/parsec.c"],
                     info=dict(info, bounds={"N": nmax}), tiers=tiers, timeout=600, kf="C15-compound-completes-at-add"))
     return qs
 def mutants(ctx):
     return [
-      Mutant("enable_two_ahead", U, "                                    compound->taskpool_array[completed_taskpools+1]);\n    } else {", "                                    compound->taskpool_array[completed_taskpools+2]);\n    } else {", queries=["compose_n3"]),
-      Mutant("startup_enables_second", U, "parsec_context_add_taskpool(compound->ctx, compound->taskpool_array[0]);", "parsec_context_add_taskpool(compound->ctx, compound->taskpool_array[1]);", queries=["compose_n3"]),
-      Mutant("realloc_off_by_one", U, "((compound->nb_taskpools + 16) * sizeof(parsec_taskpool_t*))", "((compound->nb_taskpools + 1) * sizeof(parsec_taskpool_t*))", queries=["compose_n17", "compose_n16"]),
-      Mutant("cb_not_installed_on_last", U, "for( int i = 0; i < compound->nb_taskpools; i++ ) {", "for( int i = 0; i < compound->nb_taskpools - 1; i++ ) {", queries=["compose_n3"]),
-      Mutant("no_null_terminator_slot", U, "if( 0 == (compound->nb_taskpools % 16) ) {", "if( 0 == (compound->nb_taskpools % 17) ) {", queries=["compose_n17", "compose_n16"]),
+      Mutant("enable_two_ahead", U, "                                    compound->taskpool_array[completed_taskpools+1]);\n    } else {", "                                    compound->taskpool_array[completed_taskpools+2]);\n    } else {", queries=["chain_n3", "compose_n3"]),
+      Mutant("startup_enables_second", U, "parsec_context_add_taskpool(compound->ctx, compound->taskpool_array[0]);", "parsec_context_add_taskpool(compound->ctx, compound->taskpool_array[1]);", queries=["chain_n3", "compose_n3"]),
+      Mutant("realloc_off_by_one", U, "((compound->nb_taskpools + 16) * sizeof(parsec_taskpool_t*))", "((compound->nb_taskpools + 1) * sizeof(parsec_taskpool_t*))", queries=["chain_n17", "chain_n16"]),
+      Mutant("cb_not_installed_on_last", U, "for( int i = 0; i < compound->nb_taskpools; i++ ) {", "for( int i = 0; i < compound->nb_taskpools - 1; i++ ) {", queries=["chain_n3", "compose_n3"]),
+      Mutant("no_null_terminator_slot", U, "if( 0 == (compound->nb_taskpools % 16) ) {", "if( 0 == (compound->nb_taskpools % 17) ) {", queries=["chain_n17", "chain_n16"]),
     ]
 CLAIMED = False
